@@ -9,7 +9,8 @@
    Transcribed: DirectoryMatcher.find_matching_rule/_check_path_match/_check_root_match,
    RuleChecker.check_all_rules and its helpers, PatternMatcher.match_deny_patterns/
    match_allow_patterns/_extract_pattern_and_reason, PatternValidator.validate_config,
-   PathResolver.get_relative_path, ViolationFactory messages.  All literals (message formats, default
+   PathResolver.get_relative_path/normalize_path_string (the string methods applied to str(path) are a generated
+   list of operations, interpreted here), ViolationFactory messages.  All literals (message formats, default
    reasons, reason keys, keys and order of the checks, root key, depth arithmetic, comparison operator and
    start value of the best-depth search, validation order) are read from Gen/PlacementGen.v.
    No proofs in this file. *)
@@ -28,9 +29,12 @@ Record pquirks := {
   q_allow_dict_unsupported   : bool;  (* was: documented allow items {pattern: ..} raise TypeError in validation (swallowed) *)
   q_trailing_slash_depth     : bool;  (* the depth of a key written with a trailing slash counts the empty last component:
                                          `lib/` ties with `lib/core` and, listed first, judges lib/core/x *)
+  q_backslash_separator      : bool;  (* normalize_path_string turns every backslash of the root-relative path into `/` before
+                                         matching (also on POSIX, where a backslash is an ordinary character of a file name):
+                                         the root-level file `src\x.py` is judged by the rule of `src`, `^lib/` matches `lib\a.py` *)
 }.
-Definition ideal : pquirks := Build_pquirks false false false false false.
-Definition all_on : pquirks := Build_pquirks true true true true true.
+Definition ideal : pquirks := Build_pquirks false false false false false false.
+Definition all_on : pquirks := Build_pquirks true true true true true true.
 
 (* ------------------------------------------------------------------ abstract configuration *)
 Inductive ditem := DStr (p : string) | DDict (p : string) (reason message : option string).
@@ -89,6 +93,56 @@ Fixpoint rstrip_char (x : ascii) (s : string) : string :=       (* str.rstrip(x)
     if Ascii.eqb c x && String.eqb r "" then EmptyString else String c r
   end.
 Definition rstrip_slash (s : string) : string := rstrip_char "/" s.
+
+(* ------------------------------------------------------------------ normalize_path_string *)
+(* str.replace(a, b) for a non-empty a: leftmost non-overlapping occurrences *)
+Fixpoint replace_go (a b : string) (skip : nat) (s : string) : string :=
+  match s with
+  | EmptyString => EmptyString
+  | String c s' =>
+    match skip with
+    | S k => replace_go a b k s'
+    | O => if starts_with a s then (b ++ replace_go a b (String.length a - 1) s')%string
+           else String c (replace_go a b 0 s')
+    end
+  end.
+
+Fixpoint char_in (c : ascii) (set : string) : bool :=
+  match set with EmptyString => false | String a r => Ascii.eqb a c || char_in c r end.
+
+Fixpoint lstrip_set (set s : string) : string :=
+  match s with EmptyString => EmptyString | String c s' => if char_in c set then lstrip_set set s' else s end.
+
+Fixpoint rstrip_set (set s : string) : string :=
+  match s with
+  | EmptyString => EmptyString
+  | String c s' => let r := rstrip_set set s' in if char_in c set && String.eqb r "" then EmptyString else String c r
+  end.
+
+Fixpoint str_map (f : ascii -> ascii) (s : string) : string :=
+  match s with EmptyString => EmptyString | String a r => String (f a) (str_map f r) end.
+
+Definition ascii_lower (c : ascii) : ascii :=
+  let n := nat_of_ascii c in if (65 <=? n) && (n <=? 90) then ascii_of_nat (n + 32) else c.
+
+Fixpoint sdrop (n : nat) (s : string) : string :=
+  match n, s with O, _ => s | S k, String _ s' => sdrop k s' | S _, EmptyString => EmptyString end.
+
+Definition norm_step (o : norm_op) (s : string) : string :=
+  match o with
+  | NReplace a b => replace_go a b 0 s
+  | NLstrip cs => lstrip_set cs s
+  | NRstrip cs => rstrip_set cs s
+  | NStrip cs => rstrip_set cs (lstrip_set cs s)
+  | NLower => str_map ascii_lower s
+  | NRemovePrefix p => if starts_with p s then sdrop (String.length p) s else s
+  end.
+
+Definition normalize (ops : list norm_op) (s : string) : string := fold_left (fun acc o => norm_step o acc) ops s.
+
+(* the one operation that is the listed deviation: backslash -> path separator *)
+Definition is_sep_replace (o : norm_op) : bool :=
+  match o with NReplace a b => String.eqb a "\" && String.eqb b fp_path_sep | _ => false end.
 
 Definition or_str (a b : string) : string := if String.eqb a "" then b else a.   (* Python `a or b` *)
 
@@ -174,16 +228,18 @@ Section Engine.
   (* ---------------------------------------------------------------- RuleChecker *)
   Definition mk (rel msg : string) : rep := (rel, fp_line, fp_column, msg).
 
-  Definition deny_check (p : string) (l : option (list ditem)) (msg : string -> string) : option rep :=
+  (* from here on two strings travel together, as in check_all_rules(path_str, rel_path, ..): [ps] is the normalised
+     string the patterns and the directory keys are tested against, [p] the root-relative path the report carries *)
+  Definition deny_check (ps p : string) (l : option (list ditem)) (msg : string -> string) : option rep :=
     match l with
     | None => None
-    | Some l => match match_deny p l with Some reason => Some (mk p (msg reason)) | None => None end
+    | Some l => match match_deny ps l with Some reason => Some (mk p (msg reason)) | None => None end
     end.
 
-  Definition allow_check (p : string) (l : option (list aitem)) (msg : string) : option rep :=
+  Definition allow_check (ps p : string) (l : option (list aitem)) (msg : string) : option rep :=
     match l with
     | None => None
-    | Some l => if match_allow p l then None else Some (mk p msg)
+    | Some l => if match_allow ps l then None else Some (mk p msg)
     end.
 
   Definition dir_deny_msg (p d reason : string) : string :=
@@ -193,27 +249,27 @@ Section Engine.
   Definition gallow_msg (p : string) : string := render fp_gallow_msg p "" "" "".
 
   (* one check of a {allow, deny} rule, selected by the key it reads *)
-  Definition rule_check (k : string) (p : string) (r : drule) (dmsg : string -> string) (amsg : string) : option rep :=
-    if String.eqb k "deny" then deny_check p (r_deny r) dmsg
-    else if String.eqb k "allow" then allow_check p (r_allow r) amsg
+  Definition rule_check (k : string) (ps p : string) (r : drule) (dmsg : string -> string) (amsg : string) : option rep :=
+    if String.eqb k "deny" then deny_check ps p (r_deny r) dmsg
+    else if String.eqb k "allow" then allow_check ps p (r_allow r) amsg
     else None.
 
   Definition opt_list {A} (o : option A) : list A := match o with Some x => [x] | None => [] end.
 
   (* _check_directory_rules: the first violation among the checks, in source order *)
-  Definition dir_part (q : pquirks) (p : string) (dirs : list (string * drule)) : list rep :=
-    match find_matching_rule q p dirs with
+  Definition dir_part (q : pquirks) (ps p : string) (dirs : list (string * drule)) : list rep :=
+    match find_matching_rule q ps dirs with
     | None => []
     | Some (d, r) =>
       if String.eqb d "" then []      (* `not matched_path` *)
-      else opt_list (first_some (map (fun k => rule_check k p r (dir_deny_msg p d) (dir_allow_msg p d)) fp_dir_check_order))
+      else opt_list (first_some (map (fun k => rule_check k ps p r (dir_deny_msg p d) (dir_allow_msg p d)) fp_dir_check_order))
     end.
 
-  Definition gdeny_part (p : string) (l : list ditem) : list rep :=
-    opt_list (deny_check p (Some l) (gdeny_msg p)).
+  Definition gdeny_part (ps p : string) (l : list ditem) : list rep :=
+    opt_list (deny_check ps p (Some l) (gdeny_msg p)).
 
-  Definition gpat_part (p : string) (g : drule) : list rep :=
-    opt_list (first_some (map (fun k => rule_check k p g (gdeny_msg p) (gallow_msg p)) fp_gpat_check_order)).
+  Definition gpat_part (ps p : string) (g : drule) : list rep :=
+    opt_list (first_some (map (fun k => rule_check k ps p g (gdeny_msg p) (gallow_msg p)) fp_gpat_check_order)).
 
   Definition dirs_of (c : config) : list (string * drule) := match c_dirs c with Some l => l | None => [] end.
 
@@ -221,17 +277,20 @@ Section Engine.
     match find_matching_rule q p (dirs_of c) with Some _ => true | None => false end.
 
   (* check_all_rules: the three blocks in source order; the code applies the global blocks to every file *)
-  Definition part_by (q : pquirks) (p : string) (c : config) (k : string) : list rep :=
-    let gate := q_global_on_covered q || negb (covered q p c) in
-    if String.eqb k "directories" then dir_part q p (dirs_of c)
+  Definition part_by (q : pquirks) (ps p : string) (c : config) (k : string) : list rep :=
+    let gate := q_global_on_covered q || negb (covered q ps c) in
+    if String.eqb k "directories" then dir_part q ps p (dirs_of c)
     else if String.eqb k "global_deny" then
-      match c_gdeny c with Some l => if gate then gdeny_part p l else [] | None => [] end
+      match c_gdeny c with Some l => if gate then gdeny_part ps p l else [] | None => [] end
     else if String.eqb k "global_patterns" then
-      match c_gpat c with Some g => if gate then gpat_part p g else [] | None => [] end
+      match c_gpat c with Some g => if gate then gpat_part ps p g else [] | None => [] end
     else [].
 
-  Definition check_all (q : pquirks) (p : string) (c : config) : list rep :=
-    flat_map (part_by q p c) fp_checker_keys.
+  Definition check_all_n (q : pquirks) (ps p : string) (c : config) : list rep :=
+    flat_map (part_by q ps p c) fp_checker_keys.
+
+  (* the checker on a path that needs no normalisation *)
+  Definition check_all (q : pquirks) (p : string) (c : config) : list rep := check_all_n q p p c.
 
   (* ---------------------------------------------------------------- PatternValidator *)
   Inductive vres := VOk | VInvalid (p : string) | VCrash.
@@ -268,9 +327,14 @@ Section Engine.
   Definition eff_path (q : pquirks) (f : fileq) : string :=
     if q_path_relative_to_cwd q && negb fp_relative_resolved && f_relative f then f_rest f else relpath f.
 
+  (* normalize_path_string: the generated operations; with the flag off, without the backslash replacement *)
+  Definition norm_ops (q : pquirks) : list norm_op :=
+    if q_backslash_separator q then fp_normalize_ops else filter (fun o => negb (is_sep_replace o)) fp_normalize_ops.
+  Definition path_str (q : pquirks) (rel : string) : string := normalize (norm_ops q) rel.
+
   Definition run (q : pquirks) (c : config) (f : fileq) : outcome :=
     match validate q c with
-    | VOk => Reports (check_all q (eff_path q f) c)
+    | VOk => Reports (check_all_n q (path_str q (eff_path q f)) (eff_path q f) c)
     | VInvalid p => Rejected p
     | VCrash => Crashed
     end.
